@@ -550,3 +550,195 @@ Lemma verify_site_facts :
   c20_verified_buckets_users = ["__init__"%string; "_verify_bucket"%string] /\ c20_verified_buckets_init_empty = true /\
   c20_get_chunk_verifies_on_404 = true.
 Proof. repeat split; reflexivity. Qed.
+
+(* ================================================================================================================ *)
+(* D. the session pool at request level                                                                              *)
+(* ================================================================================================================ *)
+Definition psize (p : pool) : nat := List.length (p_free p) + List.length (p_held p).
+Record RInv (r : rpool) : Prop := {
+  ri_pool : pool_inv (r_pool r);
+  ri_clash : r_clash r = false;
+  ri_count : p_next (r_pool r) = psize (r_pool r) + r_lost r
+}.
+
+Lemma items_length p : List.length (items p) = psize p.
+Proof. unfold items, psize. rewrite app_length, map_length. reflexivity. Qed.
+
+Lemma rm_held_length t x l : In (t, x) l -> S (List.length (rm_held t x l)) = List.length l.
+Proof.
+  induction l as [|h r IH]; simpl; intros Hin; [contradiction|].
+  destruct (Nat.eqb (fst h) t && Nat.eqb (snd h) x)%bool eqn:E; [reflexivity|].
+  destruct Hin as [->|Hin]; [simpl in E; rewrite !Nat.eqb_refl in E; discriminate|]. simpl. rewrite (IH Hin). reflexivity.
+Qed.
+
+(* the translated get/put change the number of items only by creating one *)
+Lemma pool_step_count_c ce cn cp p o : pool_codes_safe ce cn cp = true ->
+  psize (pool_step_c ce cn cp p o) + p_next p = psize p + p_next (pool_step_c ce cn cp p o).
+Proof.
+  intros Hc. unfold pool_codes_safe in Hc.
+  apply andb_true_iff in Hc. destruct Hc as [Hc Hp]. apply andb_true_iff in Hc. destruct Hc as [Hce Hcn].
+  apply Z.eqb_eq in Hce. subst ce.
+  assert (cn = 0%Z \/ cn = 1%Z \/ cn = 2%Z) as Hcn'.
+  { apply orb_true_iff in Hcn. destruct Hcn as [Hcn|Hcn]; [apply orb_true_iff in Hcn; destruct Hcn as [H|H]|];
+    [left|right; left|right; right]; apply Z.eqb_eq; assumption. }
+  clear Hcn Hp.
+  destruct o as [t|t]; unfold psize; simpl.
+  - destruct (p_free p) as [|y q] eqn:Ef.
+    + simpl. try rewrite Ef. simpl. lia.
+    + destruct Hcn' as [->|Hcn'].
+      * simpl. try rewrite Ef. simpl. lia.
+      * destruct (take_item cn (y :: q)) as [| |x r] eqn:Et.
+        -- exfalso. revert Et. apply take_item_nonempty; [discriminate|exact Hcn'].
+        -- destruct Hcn' as [->| ->]; simpl in Et; [destruct (rev q ++ [y])%list; discriminate|discriminate].
+        -- destruct (take_item_split cn (y :: q) x r Hcn' Et) as (l1 & l2 & E1 & E2).
+           simpl. rewrite E2. apply (f_equal (@List.length nat)) in E1. rewrite app_length in *. simpl in *. lia.
+  - destruct (find (fun h => Nat.eqb (fst h) t) (p_held p)) as [[t' x]|] eqn:F; [|lia].
+    pose proof (find_held_in _ _ _ _ F) as Hin. pose proof (rm_held_length t x _ Hin) as Hl. simpl.
+    assert (List.length (give_back cp (p_free p) x) = S (List.length (p_free p))) as ->.
+    { unfold give_back. destruct cp; simpl; [rewrite app_length; simpl; lia|reflexivity|reflexivity]. }
+    lia.
+Qed.
+Lemma pool_step_count p o : psize (pool_step p o) + p_next p = psize p + p_next (pool_step p o).
+Proof. apply pool_step_count_c. exact pool_codes_ok. Qed.
+
+Lemma held_by_in t p x : held_by t p = Some x -> In (t, x) (p_held p).
+Proof.
+  unfold held_by. destruct (find (fun h => Nat.eqb (fst h) t) (p_held p)) as [[t' y]|] eqn:F; [|discriminate].
+  intros H. injection H as <-. exact (find_held_in _ _ _ _ F).
+Qed.
+
+Lemma nodup_filter_le1 (l : list (nat * nat)) x : NoDup (map snd l) ->
+  List.length (filter (fun h => Nat.eqb (snd h) x) l) <= 1.
+Proof.
+  induction l as [|h r IH]; simpl; intros H; [lia|]. inversion H as [|? ? Hn Hr]; subst.
+  destruct (Nat.eqb (snd h) x) eqn:E; [|apply IH; exact Hr]. simpl. apply Nat.eqb_eq in E.
+  assert (filter (fun h0 => Nat.eqb (snd h0) x) r = []) as ->; [|simpl; lia].
+  destruct (filter (fun h0 => Nat.eqb (snd h0) x) r) as [|z zs] eqn:Ez; [reflexivity|]. exfalso.
+  assert (In z (filter (fun h0 => Nat.eqb (snd h0) x) r)) as Hz by (rewrite Ez; left; reflexivity).
+  apply filter_In in Hz. destruct Hz as [Hz1 Hz2]. apply Nat.eqb_eq in Hz2. apply Hn. rewrite E, <- Hz2.
+  apply in_map. exact Hz1.
+Qed.
+
+Lemma nodup_app_r {A} (l1 l2 : list A) : NoDup (l1 ++ l2) -> NoDup l2.
+Proof. induction l1 as [|a l1 IH]; simpl; intros H; [exact H|]. inversion H; subst. apply IH. assumption. Qed.
+Lemma nodup_app_disj {A} (l1 l2 : list A) x : NoDup (l1 ++ l2) -> In x l1 -> In x l2 -> False.
+Proof.
+  induction l1 as [|a l1 IH]; simpl; intros H H1 H2; [contradiction|]. inversion H as [|? ? Hn Hr]; subst.
+  destruct H1 as [->|H1]; [apply Hn; apply in_or_app; right; exact H2|exact (IH Hr H1 H2)].
+Qed.
+Lemma nodup_snd_unique (l : list (nat * nat)) t t' x : NoDup (map snd l) -> In (t, x) l -> In (t', x) l -> t = t'.
+Proof.
+  induction l as [|a l IH]; simpl; intros ND H1 H2; [contradiction|]. inversion ND as [|? ? Hn Hr]; subst.
+  destruct H1 as [->|H1]; destruct H2 as [E|H2].
+  - injection E as E. exact E.
+  - exfalso. apply Hn. apply (in_map snd) in H2. exact H2.
+  - subst a. exfalso. apply Hn. apply (in_map snd) in H1. exact H1.
+  - exact (IH Hr H1 H2).
+Qed.
+
+(* the item a thread holds is in nobody else's hands and not in the free list *)
+Lemma no_clash t x p : pool_inv p -> In (t, x) (p_held p) -> clashes t x p = false.
+Proof.
+  intros (_ & ND & _) Hin. unfold items in ND. unfold clashes.
+  pose proof (nodup_app_r _ _ ND) as NDh.
+  assert (existsb (Nat.eqb x) (p_free p) = false) as ->.
+  { destruct (existsb (Nat.eqb x) (p_free p)) eqn:E; [|reflexivity]. exfalso.
+    apply existsb_exists in E. destruct E as (y & Hy & Ey). apply Nat.eqb_eq in Ey. subst y.
+    apply (nodup_app_disj _ _ x ND Hy). apply (in_map snd) in Hin. exact Hin. }
+  assert (existsb (fun h => Nat.eqb (snd h) x && negb (Nat.eqb (fst h) t)) (p_held p) = false) as ->.
+  { destruct (existsb _ (p_held p)) eqn:E; [|reflexivity]. exfalso.
+    apply existsb_exists in E. destruct E as ([t' y] & Hy & Ey). simpl in Ey. apply andb_true_iff in Ey.
+    destruct Ey as [E1 E2]. apply Nat.eqb_eq in E1. subst y. apply negb_true_iff in E2. apply Nat.eqb_neq in E2.
+    apply E2. exact (nodup_snd_unique _ _ _ _ NDh Hy Hin). }
+  simpl. apply Nat.ltb_ge. apply nodup_filter_le1. exact NDh.
+Qed.
+
+Lemma rinv_step r o : RInv r -> RInv (rstep r o).
+Proof.
+  intros [Hp Hc Hn]. destruct o as [t|t|t|t|t]; cbn [rstep].
+  - constructor; cbn [r_pool r_lost r_clash r_unheld];
+      [exact (pool_step_inv _ _ _ _ _ pool_codes_ok Hp)|exact Hc|].
+    pose proof (pool_step_count (r_pool r) (PGet t)). lia.
+  - destruct (held_by t (r_pool r)) as [x|] eqn:E.
+    + constructor; cbn [r_pool r_lost r_clash r_unheld]; [exact Hp| |exact Hn].
+      rewrite Hc. cbn [orb]. apply no_clash; [exact Hp|apply held_by_in; exact E].
+    + constructor; cbn [r_pool r_lost r_clash r_unheld]; assumption.
+  - constructor; assumption.
+  - constructor; cbn [r_pool r_lost r_clash r_unheld];
+      [exact (pool_step_inv _ _ _ _ _ pool_codes_ok Hp)|exact Hc|].
+    pose proof (pool_step_count (r_pool r) (PPut t)). lia.
+  - destruct (held_by t (r_pool r)) as [x|] eqn:E; [|constructor; assumption].
+    pose proof (held_by_in _ _ _ E) as Hin. pose proof (rm_held_perm t x _ Hin) as HP.
+    pose proof (rm_held_length t x _ Hin) as Hl.
+    constructor; cbn [r_pool r_lost r_clash r_unheld]; [|exact Hc|unfold psize in *; cbn [p_free p_held p_next]; lia].
+    destruct Hp as (He & ND & Hlt). unfold pool_inv, items in *. cbn [p_free p_held p_next p_err].
+    assert (Permutation (p_free (r_pool r) ++ map snd (p_held (r_pool r)))
+                        (x :: p_free (r_pool r) ++ map snd (rm_held t x (p_held (r_pool r))))) as HP2.
+    { eapply perm_trans; [apply Permutation_app_head; exact HP|]. symmetry. apply Permutation_middle. }
+    repeat split.
+    + exact He.
+    + pose proof (Permutation_NoDup HP2 ND) as ND2. inversion ND2; assumption.
+    + intros y Hy. apply Hlt. eapply Permutation_in; [symmetry; exact HP2|]. right. exact Hy.
+Qed.
+
+Lemma rinv_init : RInv rinit.
+Proof. constructor; simpl; [exact pool_inv_init|reflexivity|reflexivity]. Qed.
+
+Lemma lost_le_drops evs : forall r, r_lost (fold_left rstep evs r) <= r_lost r + List.length (filter is_drop evs).
+Proof.
+  induction evs as [|o evs IH]; intros r; simpl; [lia|].
+  specialize (IH (rstep r o)). destruct o as [t|t|t|t|t]; simpl in *; try lia.
+  - destruct (held_by t (r_pool r)); simpl in *; lia.
+  - destruct (held_by t (r_pool r)); simpl in *; lia.
+Qed.
+
+(* ANY sequence of borrow / send / sleep / give back / lose events by any threads (hence any interleaving of any
+   requests with any outcomes): the pool never raises, a session that a request sends through is in no other thread's
+   hands and not in the free list -- also while its holder sleeps between two attempts --, and sessions are accounted
+   for: made = free + borrowed + lost, lost only by requests that ended with an exception *)
+Theorem request_pool_safe evs :
+  let r := fold_left rstep evs rinit in
+  p_err (r_pool r) = false /\ r_clash r = false /\
+  NoDup (p_free (r_pool r) ++ map snd (p_held (r_pool r))) /\
+  p_next (r_pool r) = List.length (p_free (r_pool r)) + List.length (p_held (r_pool r)) + r_lost r /\
+  r_lost r <= List.length (filter is_drop evs).
+Proof.
+  intros r.
+  assert (RInv r) as [(He & ND & _) Hc Hn].
+  { unfold r. generalize rinv_init. generalize rinit. induction evs as [|o l IH]; intros r0 H; simpl; [exact H|].
+    apply IH. apply rinv_step. exact H. }
+  repeat split; auto. exact (lost_le_drops evs rinit).
+Qed.
+
+(* the events of ONE request as the translated code makes them: exactly one borrow when the back-off sleep happens inside
+   the `with` block; the session comes back unless the request ends with an exception and there is no finally clause *)
+Lemma attempts_one_release fin t outs :
+  List.length (filter (fun o => match o with RGet _ => true | _ => false end) (attempts fin true t outs)) = 0 /\
+  List.length (filter (fun o => match o with RPut _ | RDrop _ => true | _ => false end) (attempts fin true t outs)) = 1.
+Proof.
+  induction outs as [|o r IH]; simpl.
+  - destruct fin; split; reflexivity.
+  - destruct o as [|p|p]; simpl.
+    + exact IH.
+    + destruct p; simpl; destruct fin; split; reflexivity.
+    + destruct fin; split; reflexivity.
+Qed.
+Lemma request_one_borrow fin t outs :
+  List.length (filter (fun o => match o with RGet _ => true | _ => false end) (request_events fin true t outs)) = 1.
+Proof. unfold request_events. simpl. rewrite (proj1 (attempts_one_release fin t outs)). reflexivity. Qed.
+Lemma request_no_drop_with_finally s t outs : filter is_drop (request_events true s t outs) = [].
+Proof.
+  unfold request_events. simpl. induction outs as [|o r IH]; simpl; [reflexivity|].
+  destruct o as [|p|p]; simpl; [|destruct p; reflexivity|reflexivity].
+  destruct s; simpl; exact IH.
+Qed.
+Lemma request_flags : c20_request_sleep_in_borrow = true /\ c20_pool_call_finally = false.
+Proof. split; reflexivity. Qed.
+(* with the code as it is, a request that fails loses its session (it is not put back): a concrete history *)
+Lemma request_example :
+  let evs := request_events c20_pool_call_finally c20_request_sleep_in_borrow 0 [0; 1]%Z ++
+             request_events c20_pool_call_finally c20_request_sleep_in_borrow 1 [2]%Z ++
+             request_events c20_pool_call_finally c20_request_sleep_in_borrow 1 [1]%Z in
+  let r := fold_left rstep evs rinit in
+  p_free (r_pool r) = [1] /\ r_lost r = 1 /\ p_next (r_pool r) = 2 /\ r_unheld r = false.
+Proof. vm_compute. repeat split; reflexivity. Qed.
